@@ -82,7 +82,10 @@ def coq_bl(topo, bans):
     return "[" + "; ".join("(%s, (%s, %d))" % (topo.coq_addr(topo.by_host[b["host"]]), coq_reason(b["reason"]), b["ts"]) for b in bans) + "]"
 
 
-def outcome_options(mode, busy):
+def outcome_options(mode, busy, flags=(), fresh_only=False):
+    """flags: 'stale' = the backend refused connections earlier (its idle connections in the pool are dead);
+    'pending' = it hung during startup earlier (bb8 still waits for that connection attempt, which has no timeout
+    of its own, instead of starting a new one)."""
     T, F = "true", "false"
     if mode in ("normal", "error", "slow100"):
         o = ["Conn %s HcOk" % T, "Conn %s HcOk" % F]
@@ -96,8 +99,13 @@ def outcome_options(mode, busy):
         o = ["Conn %s HcFail" % T, "Conn %s HcFail" % F]
     else:
         raise ValueError(mode)
-    if busy and "ConnFail" not in o:
+    if (busy or "pending" in flags) and "ConnFail" not in o:
         o = o + ["ConnFail"]
+    if "stale" in flags:
+        o = o + [x for x in ("Conn %s HcFail" % T, "Conn %s HcFail" % F) if x not in o]
+    if fresh_only:
+        # healthcheck_delay = 600 s: every connection's last activity is recent, a health check happens only when forced
+        o = [x for x in o if not x.startswith("Conn false")]
     return o
 
 
@@ -170,11 +178,20 @@ def build(topo, hl, initial_modes=None, gap=6):
 def modes_at(topo, hl, initial_modes):
     """mode of every backend at each high-level step (static)."""
     cur = {a["name"]: (initial_modes or {}).get(a["name"], "normal") for a in topo.addrs}
+    flags = {a["name"]: set() for a in topo.addrs}
+    FL = {"down": "stale", "hang_startup": "pending"}
+    for n, m in cur.items():
+        if m in FL:
+            flags[n].add(FL[m])
     out = []
     for s in hl:
         if s["op"] == "mode":
             cur[s["b"]] = s["mode"]
-        out.append(dict(cur))
+            if s["mode"] in FL:
+                flags[s["b"]].add(FL[s["mode"]])
+        d = dict(cur)
+        d["#flags"] = {n: sorted(f) for n, f in flags.items() if f}
+        out.append(d)
     return out
 
 
@@ -206,6 +223,8 @@ def classify_client(frames, outcome):
     rows = [f for f in frames if f.get("t") == "D"]
     if rows and outcome == "ok":
         return ("ok", rows[0]["cols"][0])
+    if outcome == "ok" and not errs and any(f.get("t") == "C" for f in frames):
+        return ("ok_err", None)          # a statement without rows (BEGIN, SET): the server is the one that logged it
     if errs:
         m = (errs[0].get("fields") or {}).get("M", "")
         sev = (errs[0].get("fields") or {}).get("S", "")
@@ -234,7 +253,7 @@ def observe_txn(topo, s, w):
         if e.get("ev") == "recv" and e.get("label") == lab:
             frames, outcome = e["frames"], e["outcome"]
         who = e.get("who")
-        if who in names and e.get("ev") in ("open", "msg"):
+        if who in names and e.get("ev") in ("open", "msg") and not (e.get("ev") == "msg" and e.get("tag") == "X"):   # X: pgcat dropping a bad connection, may arrive late
             if who not in contacts:
                 contacts.append(who)
             if e.get("ev") == "msg":
@@ -293,7 +312,8 @@ def match_txn(topo, s, ob, modes, allowed, nows):
     t0s, t1s = ob["t0"] // 1000, ob["t1"] // 1000
     # a contact leaves no trace at the mock when it refuses connections (down), when the connection
     # attempt was already pending before the step (hang_startup) or when bb8 only waited for a slot (busy)
-    optional = lambda n: modes[n] in ("down", "hang_startup") or n in busy
+    flags = modes.get("#flags", {})
+    optional = lambda n: modes[n] in ("down", "hang_startup") or n in busy or bool(flags.get(n))
     why = []
     for (res, ct, bl, hcs) in allowed:
         if kind in ("ok", "ok_err"):
@@ -313,7 +333,7 @@ def match_txn(topo, s, ob, modes, allowed, nows):
         vis = [(name_of[i], h) for i, h in zip(ct, hcs) if not (optional(name_of[i]) and name_of[i] not in ob["contacts"])]
         if [n for n, _ in vis] != ob["contacts"]:
             why.append("contacts"); continue
-        if any(bool(ob["hc"].get(n)) != h for n, h in vis if modes[n] != "down"):
+        if any(bool(ob["hc"].get(n)) != h for n, h in vis if modes[n] != "down" and "stale" not in flags.get(n, ())):
             why.append("healthcheck"); continue
         return True, ""
     return False, ",".join(sorted(set(why)))
@@ -336,18 +356,19 @@ def monitors(topo, s, ob, modes):
             bad.append("primary %s is on the ban list" % n)
     if ob["kind"] == "ok" and ob["arg"] in post:
         bad.append("the serving replica %s is banned after its own successful checkout" % ob["arg"])
+    flags = modes.get("#flags", {})
     healthy = lambda m: m in ("normal", "error", "slow100")
     usable = []
     for a in cands:
         n = a["name"]
-        if not healthy(modes[n]) or n in s.get("busy", []):
+        if not healthy(modes[n]) or n in s.get("busy", []) or flags.get(n):
             continue
         if a["role"] == "P" or n not in pre or expired_possible(pre[n], ob["t0"], ob["t1"], topo.ban_time)[1]:
             usable.append(n)
     # (a statement that then fails on a broken server the checkout handed out is the other sentence of the property)
     if usable and ob["kind"] in ("refused", "closed_silent", "other_error"):
         bad.append("candidate(s) %s usable (healthy and not under an unexpired ban) but the transaction was refused: %s %s" % (usable, ob["kind"], ob["arg"]))
-    if ob["kind"] == "exec" and ob["stmt_at"] and healthy(modes[ob["stmt_at"]]):
+    if ob["kind"] == "exec" and ob["stmt_at"] and healthy(modes[ob["stmt_at"]]) and not flags.get(ob["stmt_at"]):
         bad.append("the statement failed (%s) on %s which is healthy" % (ob["arg"], ob["stmt_at"]))
     if ob["kind"] == "ok" and not healthy(modes[ob["arg"]]) and modes[ob["arg"]] != "hang_startup":
         bad.append("served by %s which is in mode %s" % (ob["arg"], modes[ob["arg"]]))
@@ -357,7 +378,7 @@ def monitors(topo, s, ob, modes):
         if a["role"] != "R" or n not in pre or expired_possible(pre[n], ob["t0"], ob["t1"], topo.ban_time)[0]:
             continue
         others = [x for x in topo.addrs if x["shard"] == a["shard"] and x["role"] == "R" and x["name"] != n and x["name"] not in pre
-                  and healthy(modes[x["name"]]) and x["name"] not in s.get("busy", [])]
+                  and healthy(modes[x["name"]]) and x["name"] not in s.get("busy", []) and not flags.get(x["name"])]
         if others and (n in ob["contacts"] or ob["stmt_at"] == n):
             bad.append("replica %s is banned (not expired) and %s is up and unbanned, yet %s was contacted" % (n, [x["name"] for x in others], n))
     lat = ob["t1"] - ob["t0"]
@@ -464,6 +485,24 @@ def scripted(quick):
         hl = [{"op": "sleep_frac", "ms": 850}, {"op": "ban", "b": "r1", "secs": 1}, {"op": "sleep_frac", "ms": 150}] + \
              [{"op": "txn", "role": "replica"} for _ in range(8)] + [{"op": "showbans"}, {"op": "sleep", "ms": 1100}] + [{"op": "txn", "role": "replica"} for _ in range(6)]
         out.append(("strict-gt-%d" % rep, t, hl, None))
+    # the same with the pop order pinned: least-outstanding-connections mode, an open transaction keeps one
+    # connection of r2 busy, so r1 (no busy connection) is popped first; a failure ban and an admin ban of r1
+    # are looked at again at age exactly 1 s (still banned: 1 > 1 is false) and at age >= 2 s (unbanned, health-checked)
+    for rep in range(1 if quick else 4):
+        t = Topo([["P", "R", "R"]], hc=True, lb="loc", ban_time=1)
+        F = {"op": "txn", "role": "replica", "first": ["r1"]}
+        hl = [{"op": "ban", "b": "r1", "secs": 600}, {"op": "txn", "role": "replica", "sql": "BEGIN", "c": "holder", "keep": True}, {"op": "unban", "b": "r1"},
+              {"op": "mode", "b": "r1", "mode": "close_mid_reply"}, {"op": "sleep_frac", "ms": 800}, dict(F), {"op": "mode", "b": "r1", "mode": "normal"},
+              {"op": "sleep_frac", "ms": 150}, dict(F), dict(F), dict(F), {"op": "showbans"}, {"op": "sleep", "ms": 1000}, dict(F), dict(F),
+              {"op": "sleep_frac", "ms": 850}, {"op": "ban", "b": "r1", "secs": 1}, {"op": "sleep_frac", "ms": 150}, dict(F), dict(F), dict(F), {"op": "sleep", "ms": 1000}, dict(F), dict(F)]
+        out.append(("strict-gt-pinned-%d" % rep, t, hl, None))
+    # health checks only when forced (healthcheck_delay 600 s): a replica coming back from a ban is checked, nobody else
+    for lb in ("random", "loc"):
+        t = Topo([["P", "R", "R"]], hc=False, lb=lb, ban_time=1)
+        hl = [{"op": "ban", "b": "r1", "secs": 1}, {"op": "ban", "b": "r2", "secs": 1}, {"op": "txn", "role": "replica"}, {"op": "ban", "b": "r1", "secs": 1}, {"op": "sleep", "ms": 2200}] + \
+             [{"op": "txn", "role": "replica"} for _ in range(5)] + [{"op": "mode", "b": "r2", "mode": "hang"}, {"op": "ban", "b": "r2", "secs": 1}, {"op": "sleep", "ms": 2200}] + \
+             [{"op": "txn", "role": "replica"} for _ in range(4)]
+        out.append(("forced-healthcheck-%s" % lb, t, hl, None))
     # admin durations: BAN 2 survives ban_time=1
     t = Topo([["P", "R", "R"]], hc=True, ban_time=1)
     hl = [{"op": "ban", "b": "r2", "secs": 3}, {"op": "showbans"}] + [{"op": "txn", "role": "replica"} for _ in range(3)] + [{"op": "sleep", "ms": 2200}] + \
@@ -520,10 +559,23 @@ def probes_unguarded():
 
 
 # ----------------------------------------------------------------------------- the check
-def run_and_check(run, wire, cases, stats, label):
+class Col:
+    """violations of one pass; reported only if they persist when the schedule is run again alone"""
+
+    def __init__(self):
+        self.v = []
+
+    def violation(self, kind, what, replay, found_input=True):
+        self.v.append((replay.get("case"), kind, what, replay, found_input))
+
+    def cases(self):
+        return sorted({c for c, *_ in self.v})
+
+
+def run_and_check(run, col, wire, cases, stats, label, workers=16):
     """cases: [(id, topo, hl, initial_modes)].  Runs them, evaluates the model, compares."""
     scns = [build(t, hl, init) for (_, t, hl, init) in cases]
-    results = W.run_scenarios(wire, scns, workers=16, timeout=120)
+    results = W.run_scenarios(wire, scns, workers=workers, timeout=120)
     exprs, where = [], []
     per_case = []
     for ci, ((cid, topo, hl, init), res) in enumerate(zip(cases, results)):
@@ -550,11 +602,12 @@ def run_and_check(run, wire, cases, stats, label):
                     req = {"replica": "(Some Replica)", "primary": "(Some Primary)"}.get(role, "None")
                     shard = "None" if s.get("shard") is None else "(Some %d%%nat)" % s["shard"]
                     cands = topo.candidates(role, s.get("shard"))
-                    opts = "[" + "; ".join("(%s, [%s])" % (topo.coq_addr(a), "; ".join(outcome_options(m[a["name"]], a["name"] in s.get("busy", [])))) for a in cands) + "]"
+                    opts = "[" + "; ".join("(%s, [%s])" % (topo.coq_addr(a), "; ".join(outcome_options(m[a["name"]], a["name"] in s.get("busy", []), m["#flags"].get(a["name"], ()), not topo.hc))) for a in cands) + "]"
                     nows = sorted(set([ob["t0"] // 1000, ob["t1"] // 1000] + list(range(ob["t0"] // 1000, ob["t1"] // 1000 + 1))))
                     ek = "(Some %s)" % ob["arg"] if ob["kind"] == "exec" else "None"
                     st["nows"] = nows
-                    exprs.append("tie_txn %s %s %s %s %s [%s] %s" % (topo.coq_cfg(), coq_bl(topo, ob["pre"]), req, shard, opts, "; ".join(str(n) for n in nows), ek))
+                    first = "[" + "; ".join(topo.coq_addr(topo.by_name[n]) for n in s.get("first", [])) + "]"
+                    exprs.append("tie_txn %s %s %s %s %s [%s] %s %s" % (topo.coq_cfg(), coq_bl(topo, ob["pre"]), req, shard, opts, "; ".join(str(n) for n in nows), ek, first))
                     where.append((ci, len(info["steps"]) - 1))
             else:
                 frames = []
@@ -588,34 +641,34 @@ def run_and_check(run, wire, cases, stats, label):
             post = st["post"] if st.get("admin") else st["ob"]["post"]
             # the ban list only changes inside windows (expiry is lazy): chain consistency
             if prev_post is not None and json.dumps(prev_post, sort_keys=True) != json.dumps(pre, sort_keys=True):
-                run.violation("tie-broken", "%s: the ban list changed between two operations (%s -> %s)" % (cid, prev_post, pre), dict(replay, observed={"before": prev_post, "after": pre}), found_input=False)
+                col.violation("tie-broken", "%s: the ban list changed between two operations (%s -> %s)" % (cid, prev_post, pre), dict(replay, observed={"before": prev_post, "after": pre}), found_input=False)
                 stats["violations"] += 1
             prev_post = post
             stats["steps"] += 1
             for b in pre + post:
                 if b["role"] == "Primary":
-                    run.violation("counterexample", "%s: a primary is on the ban list: %s" % (cid, b), dict(replay, observed=b))
+                    col.violation("counterexample", "%s: a primary is on the ban list: %s" % (cid, b), dict(replay, observed=b))
             if st.get("admin"):
-                check_admin(run, topo, st, model.get((ci, si), []), replay, stats)
+                check_admin(col, topo, st, model.get((ci, si), []), replay, stats)
                 continue
             ob = st["ob"]
             stats["txn_kinds"][ob["kind"]] = stats["txn_kinds"].get(ob["kind"], 0) + 1
-            stats["distinct"].add((topo.key(), s.get("role"), s.get("shard"), tuple(sorted(st["modes"].items())), tuple(sorted((b["host"], b["reason"].split("(")[0]) for b in ob["pre"])), ob["kind"]))
+            stats["distinct"].add((topo.key(), s.get("role"), s.get("shard"), tuple(sorted((k, v) for k, v in st["modes"].items() if k != "#flags")), tuple(sorted((b["host"], b["reason"].split("(")[0]) for b in ob["pre"])), ob["kind"]))
             bad = monitors(topo, s, ob, st["modes"])
             if s.get("expect"):
-                check_site(run, s, ob, replay, stats)
+                check_site(run, col, s, ob, replay, stats)
                 if s["expect"] == "blocked" or ob["kind"] == "blocked":
                     continue
             elif ob["kind"] == "blocked":
                 bad.append("the client got no answer within %d ms" % s.get("wait", 5000))
             for b in bad:
                 stats["monitor_failures"] += 1
-                run.violation("counterexample", "%s step %d: %s" % (cid, s["k"], b), dict(replay, observed=slim(ob), modes=st["modes"]))
+                col.violation("counterexample", "%s step %d: %s" % (cid, s["k"], b), dict(replay, observed=slim(ob), modes=st["modes"]))
             if bad:
                 continue
             if ob["kind"] in ("closed_silent", "other_error", "other", "blocked"):
                 stats["unmodelled"][ob["kind"] + ":" + str(ob["arg"])[:60]] = stats["unmodelled"].get(ob["kind"] + ":" + str(ob["arg"])[:60], 0) + 1
-                run.violation("tie-broken", "%s step %d: client observation outside the model: %s %s" % (cid, s["k"], ob["kind"], ob["arg"]), dict(replay, observed=slim(ob), modes=st["modes"]), found_input=False)
+                col.violation("tie-broken", "%s step %d: client observation outside the model: %s %s" % (cid, s["k"], ob["kind"], ob["arg"]), dict(replay, observed=slim(ob), modes=st["modes"]), found_input=False)
                 continue
             mv = model.get((ci, si))
             if not mv:
@@ -632,7 +685,7 @@ def run_and_check(run, wire, cases, stats, label):
             if len(ob["contacts"]) > 1 and ob["kind"] in ("ok", "ok_err"):
                 stats["silent_failovers"] += 1
             if not okm:
-                run.violation("tie-broken", "%s step %d: observation is not one the model allows (%s): client %s %s, contacts %s, health checks %s, bans %s -> %s" %
+                col.violation("tie-broken", "%s step %d: observation is not one the model allows (%s): client %s %s, contacts %s, health checks %s, bans %s -> %s" %
                               (cid, s["k"], why, ob["kind"], ob["arg"], ob["contacts"], sorted(ob["hc"]), brief(ob["pre"]), brief(ob["post"])),
                               dict(replay, correspondence="Ban/Tie.v tie_txn vs ConnectionPool::get + client.rs ban sites", observed=slim(ob), modes=st["modes"], model_expr=mv[0][0], model_allows=mv[0][1][:3000]),
                               found_input=False)
@@ -651,7 +704,7 @@ def slim(ob):
     return {k: (brief(v) if k in ("pre", "post") else v) for k, v in ob.items()}
 
 
-def check_admin(run, topo, st, mv, replay, stats):
+def check_admin(col, topo, st, mv, replay, stats):
     s = st["s"]
     rows = [f["cols"] for f in st["frames"] if f.get("t") == "D"]
     errs = [(f.get("fields") or {}).get("M", "") for f in st["frames"] if f.get("t") == "E"]
@@ -668,7 +721,7 @@ def check_admin(run, topo, st, mv, replay, stats):
                 ok = True
         stats["distinct"].add((topo.key(), s["op"], topo.by_name[s["b"]]["role"], s.get("secs"), tuple(sorted(b["host"] for b in st["pre"]))))
         if not ok:
-            run.violation("tie-broken", "%s step %d: admin %s %s: ban list %s -> %s, model says %s" % (replay["case"], s["k"], s["op"], s["b"], brief(st["pre"]), brief(st["post"]), [v for _, v in mv]),
+            col.violation("tie-broken", "%s step %d: admin %s %s: ban list %s -> %s, model says %s" % (replay["case"], s["k"], s["op"], s["b"], brief(st["pre"]), brief(st["post"]), [v for _, v in mv]),
                           dict(replay, correspondence="Ban/Model.v admin_ban/admin_unban vs admin.rs", observed={"pre": st["pre"], "post": st["post"], "rows": rows}), found_input=False)
             stats["violations"] += 1
         if s["op"] == "ban" and topo.by_name[s["b"]]["role"] == "P" and rows:
@@ -685,33 +738,33 @@ def check_admin(run, topo, st, mv, replay, stats):
             if d - (now0 - b["ts"]) > 0:
                 may.append((b["host"], b["reason"]))
         if not (set(must) <= set(listed) <= set(may)) or st["pre"] != st["post"]:
-            run.violation("tie-broken", "%s step %d: SHOW BANS lists %s, ban list is %s" % (replay["case"], s["k"], listed, st["pre"]), dict(replay, observed={"rows": rows, "bans": st["pre"]}), found_input=False)
+            col.violation("tie-broken", "%s step %d: SHOW BANS lists %s, ban list is %s" % (replay["case"], s["k"], listed, st["pre"]), dict(replay, observed={"rows": rows, "bans": st["pre"]}), found_input=False)
             stats["violations"] += 1
         if len(listed) < len(st["pre"]):
             stats["obs_showbans_hides_due"] += 1
     else:
         # malformed / no-op admin commands leave the ban list alone
         if st["pre"] != st["post"]:
-            run.violation("counterexample", "%s step %d: '%s' changed the ban list %s -> %s" % (replay["case"], s["k"], s["sql"], st["pre"], st["post"]), dict(replay, observed={"rows": rows, "errors": errs}))
+            col.violation("counterexample", "%s step %d: '%s' changed the ban list %s -> %s" % (replay["case"], s["k"], s["sql"], st["pre"], st["post"]), dict(replay, observed={"rows": rows, "errors": errs}))
             stats["violations"] += 1
         stats["distinct"].add(("admin_raw", s["sql"], bool(errs)))
 
 
-def check_site(run, s, ob, replay, stats):
+def check_site(run, col, s, ob, replay, stats):
     """(d): one backend hangs exactly at `site`; compare with Model.v's table (guard / known_unguarded)."""
     site, expect = s["site"], s["expect"]
     blocked = ob["kind"] == "blocked"
     stats["sites"][site] = {"expected": expect, "observed": "blocked" if blocked else "%s %s after %d ms" % (ob["kind"], ob["arg"], ob["t1"] - ob["t0"])}
     known = {e.get("id"): e for e in vlib.known_findings("C07")}
     if expect == "bounded" and blocked:
-        run.violation("counterexample", "a backend hung at %s and the client got no answer within %d ms although the model's table says the await is guarded" % (site, s.get("wait", 5000)), dict(replay, observed=slim(ob)))
+        col.violation("counterexample", "a backend hung at %s and the client got no answer within %d ms although the model's table says the await is guarded" % (site, s.get("wait", 5000)), dict(replay, observed=slim(ob)))
     elif expect == "blocked" and not blocked:
-        run.violation("tie-broken", "a backend hung at %s; Model.v lists this await as unguarded, the implementation answered: %s %s" % (site, ob["kind"], ob["arg"]), dict(replay, observed=slim(ob)), found_input=False)
+        col.violation("tie-broken", "a backend hung at %s; Model.v lists this await as unguarded, the implementation answered: %s %s" % (site, ob["kind"], ob["arg"]), dict(replay, observed=slim(ob)), found_input=False)
     elif expect == "blocked" and blocked:
         fid = "F10-unguarded-server-awaits"
         e = known.get(fid)
         if e is not None and e.get("status") == "fixed":
-            run.violation("counterexample", "regression of %s: hung at %s, client blocked > %d ms" % (fid, site, s.get("wait", 5000)), dict(replay, observed=slim(ob), **{"class": fid}))
+            col.violation("counterexample", "regression of %s: hung at %s, client blocked > %d ms" % (fid, site, s.get("wait", 5000)), dict(replay, observed=slim(ob), **{"class": fid}))
         else:
             line = (e.get("line") or e.get("what")) if e else None
             run.known_finding(line or ("%s %s%s" % (fid, FINDINGS[fid], " [reported, not yet listed in known_findings.jsonl]")), key=fid)
@@ -764,11 +817,32 @@ def check(run):
         cases.append(("rnd2-%d" % rep, topo, hl, init))
     run.log("%d schedules (%d scripted)" % (len(cases), nscripted))
     t0 = time.time()
-    if proof_ok:
-        per_case = run_and_check(run, wire, cases, stats, "main")
-    else:
-        per_case = []
-    run.log("wire + model comparison: %.1fs, %d steps, %d model evaluations" % (time.time() - t0, stats["steps"], stats["evaluations"]))
+    col = Col()
+    tie_ready = proof_ok
+    if not proof_ok and os.environ.get("VERIF_C07_MUTATION_TEST"):
+        # self-test of the tie's discrimination with a deliberately wrong model (the proofs break first)
+        tie_ready = vlib.coq_make(["Ban/Tie.vo"])[0]
+    per_case = run_and_check(run, col, wire, cases, stats, "main") if tie_ready else []
+    run.log("wire + model comparison: %.1fs, %d steps, %d model evaluations, %d schedules to confirm" % (time.time() - t0, stats["steps"], stats["evaluations"], len(col.cases())))
+    # a disagreement is reported only if it shows again when the schedule runs alone (the machine is shared:
+    # a stalled process can stretch a 300 ms timeout over several seconds and ban expiry is decided on whole seconds)
+    transient = []
+    by_id = {c[0]: c for c in cases}
+    for cid in col.cases():
+        confirmed = None
+        for attempt in range(3):
+            c2 = Col()
+            _, topo, hl, init = by_id[cid]
+            run_and_check(run, c2, wire, [(cid, topo, [{k: v for k, v in x.items() if k != "k"} for x in hl], init)], new_stats(), "confirm", workers=1)
+            if c2.v:
+                confirmed = c2
+                break
+        if confirmed:
+            for (_, kind, what, rp, found) in confirmed.v:
+                run.violation(kind, what, rp, found_input=found)
+        else:
+            transient.append({"case": cid, "first_pass": [w for (c, _, w, _, _) in col.v if c == cid][:3]})
+    run.cov["transient_disagreements_not_reproduced"] = transient
 
     # observations (reported, not violations)
     obs = []
@@ -826,12 +900,12 @@ def replay(run, path):
     topo = Topo(tp["shards"], lb=tp["lb"], hc=tp["healthcheck"], default_role=tp.get("default_role", "any"), pool_size=tp.get("pool_size", 2), ban_time=tp.get("ban_time", 60))
     hl = [dict(x) for x in r["schedule"]]
     stats = new_stats()
-    n0 = len(run.violations)
+    col = Col()
     for attempt in range(8):       # the candidate order is random: repeat
-        run_and_check(run, bins["wire"], [(r.get("case", "replay"), topo, [dict(x) for x in hl], r.get("initial_modes"))], stats, "replay")
-        if len(run.violations) > n0:
+        run_and_check(run, col, bins["wire"], [(r.get("case", "replay"), topo, [dict(x) for x in hl], r.get("initial_modes"))], stats, "replay", workers=1)
+        if col.v:
             break
-    print("replay: %d steps, %d model evaluations, reproduced=%s" % (stats["steps"], stats["evaluations"], len(run.violations) > n0))
-    for what, p, _ in run.violations[n0:n0 + 3]:
-        print("  ->", what)
-    return 1 if len(run.violations) > n0 else 0
+    print("replay: %d steps, %d model evaluations, reproduced=%s" % (stats["steps"], stats["evaluations"], bool(col.v)))
+    for (_, kind, what, _, _) in col.v[:3]:
+        print("  ->", kind, what)
+    return 1 if col.v else 0
